@@ -178,6 +178,11 @@ func buildShiftMatchingPredicate(sw swamp.Swamp, beaconType swamp.BeaconType, fi
 	if plan.Mode != PlanModeBypass {
 		candidates := collectBucketCandidates(sw, plan.Hints)
 		keySet = candidateKeySet(candidates)
+		if keySet == nil {
+			// no candidate at all: an empty (non-nil) set, so that the predicate rejects every
+			// record instead of skipping the candidate check
+			keySet = map[string]struct{}{}
+		}
 		if verifhook.Enabled {
 			verifhook.Point("claim.candidates", "shift", len(keySet))
 		}
